@@ -310,6 +310,58 @@ def relative_window_cases(run):
                                 theorem="C01 (recovery; not a theorem)")
 
 
+def absolute_window_cases(run):
+    """absolute intervals that lie inside the indentation branch only (the
+    generating contact point is outside the fitted points): modulus, contact
+    point and baseline are still determined by the data (C01_identifiable_*),
+    and the default minimiser recovers them from a start inside the basin"""
+    from nanite import model
+    for mk in ("hertz_para", "hertz_cone"):
+        for cp, rx in ((3e-7, [-3.1e-6, -2e-7]), (3e-7, [-2.5e-6, 0.0]),
+                       (-2e-7, [-3e-6, -6e-7])):
+            for seg in (0, 1):
+                true = fits.default_params(mk, E=2500.0, contact_point=cp,
+                                           baseline=2e-10)
+                cols = fits.model_curve(mk, true, n_app=400, n_ret=200)
+                span = float(np.ptp(cols["tip position"]))
+                cfg = {"absolute-window": mk, "contact_point": cp,
+                       "range_x": rx, "segment": seg}
+                key = "absolute-window:" + common.sha(cfg)[:16]
+                run.case(cfg, kind="absolute-window")
+                try:
+                    idnt = curves.make_indentation(cols)
+                    p = model.models_available[mk].get_parameter_defaults()
+                    p["E"].set(value=3200.0)
+                    p["contact_point"].set(value=cp + 0.025 * span)
+                    with warnings.catch_warnings():
+                        warnings.simplefilter("ignore")
+                        idnt.fit_model(model_key=mk, params_initial=p,
+                                       segment=seg, weight_cp=0,
+                                       range_type="absolute",
+                                       range_x=list(rx))
+                    fp = idnt.fit_properties
+                    why = None
+                    if not fp.get("success"):
+                        why = "fit reports success False"
+                    else:
+                        pf = fp["params_fitted"]
+                        eE = abs(pf["E"].value / true["E"] - 1)
+                        ec = abs(pf["contact_point"].value - cp) / span
+                        eb = abs(pf["baseline"].value - 2e-10) / float(
+                            np.ptp(cols["force"]))
+                        if eE > 1e-4 or ec > 1e-5 or eb > 1e-5:
+                            why = (f"recovered E {pf['E'].value!r} (error "
+                                   f"{eE:.2e}), contact point error "
+                                   f"{ec:.2e} of the range, baseline error "
+                                   f"{eb:.2e} of the force range")
+                except BaseException as e:
+                    why = f"raised {type(e).__name__}: {e}"
+                if why:
+                    run.failing(SITE, key, f"{cfg}: {why}",
+                                payload={"kind": "rerun"},
+                                theorem="C01 (recovery; not a theorem)")
+
+
 def independent_truth_cases(run):
     """ground truth that does not come from the library: curves computed
     from the published closed forms (extended precision, the oracle of C02)
@@ -894,6 +946,7 @@ def check(run):
     default_guess_sequences(run)
     pipeline_change_sequences(run)
     relative_window_cases(run)
+    absolute_window_cases(run)
     independent_truth_cases(run)
     guess_model_cases(run)
     geometry_cases(run)
